@@ -97,6 +97,9 @@ def check(chk, fx):
     lr.all_table_rules(chk, fx)
     # the position reported for an offending byte / term rests on the lexeme extents: the matcher's snapshot rule
     lexrules.match(chk, fx)
+    # what is skipped silently before a term is looked for (a NUL or any non-space byte must be reported, not skipped)
+    from . import c04
+    c04.ws(chk, fx)
 
 
 def rep3(chk, fx, table, site):
